@@ -272,6 +272,68 @@ def c11(run):
                      assumptions=["Unicode case mapping checked on a 6-character table only"])
 
 
+@check("C12")
+def c12(run):
+    fams = ["scalars", "g1", "bad"] if run.tier == "quick" else ["scalars", "g1", "g2", "bad"]
+    sts = run.tlc_many([dict(module="MC_Data", cfg=text_cfg(fam), name="MC_Data_" + fam, timeout=3000, workers=1)
+                        for fam in fams])
+    for fam, st in zip(fams, sts):
+        path, n = run.records(st)
+        run.replay("data", path, name="data-" + fam)
+        run.add_samples(path, 1)
+    return vp.finish(run, "model_checking",
+                     "Go values generated by type-directed recursion in TLA+ (all ten integer widths at min / max / 0 / 5, "
+                     "float32/64, strings with non-ASCII and markup, nil interface, pointers and pointers to pointers, "
+                     "untyped and typed slices, string-keyed maps, structs built at run time with exported and "
+                     "unexported fields, nested to depth 2 (thorough: 3), nil at every pointer and interface position, "
+                     "each unsupported kind at every depth) x every access path into the converted value (.Field, "
+                     ".field, [\"key\"], [i]) plus reads of unexported fields and missing keys; the harness "
+                     "materialises each value with reflect, renders the path, and checks the data is DeepEqual to a "
+                     "fresh copy afterwards", exhaustive=True)
+
+
+# ------------------------------------------------------------------ machine K: C06 C07
+def link_cfg(family):
+    return """CONSTANTS
+  DevP <- DevPIntended
+  Family = "%s"
+  Emit_ = TRUE
+SPECIFICATION Spec
+INVARIANTS ScopeBalance TypeStable LoopReserved LoopMeta Gen
+PROPERTIES OutMonotone Terminates
+CHECK_DEADLOCK FALSE
+""" % family
+
+
+def link_check(run, fam, rule):
+    st = run.tlc("MC_Link", link_cfg(fam), name="MC_Link_" + fam, timeout=3000, workers=2)
+    path, n = run.records(st)
+    run.replay("tree", path, name="tree-" + fam)
+    run.add_samples(path, 1)
+    return vp.finish(run, "model_checking", rule, exhaustive=True,
+                     assumptions=["trees are written to a scratch directory and loaded with NewTemplate after VerifReset"])
+
+
+@check("C06")
+def c06(run):
+    return link_check(run, "c06",
+                      "three layouts (reserves at top level, inside @if, inside @each) x pages inserting every subset of "
+                      "the reserves, each insert in block or expression form, in both orders, with junk text between "
+                      "them x 4 data maps x both spellings of @use ('layouts/main', '~main'); plus the four error trees "
+                      "(undefined insert, duplicate insert incl. one nested in @if, missing layout, layout using a "
+                      "layout); the model links the page (TwLink) and runs the linked program on machine E")
+
+
+@check("C07")
+def c07(run):
+    return link_check(run, "c07",
+                      "five component files (no slot, default slot, named slots with arguments in conditions, both) x "
+                      "pages with every ordered pair of 12 uses (same component twice with different arguments and "
+                      "slot bodies, with and without slots), triples, uses inside @each and @if, a component inside a "
+                      "slot body, inside an insert of a page with a layout, arguments shadowing an outer variable; "
+                      "error trees (undeclared slot, slot passed twice, missing component, ~ alias)")
+
+
 def replay(path):
     rec = json.load(open(path))
     prop = rec["property"]
